@@ -130,128 +130,154 @@ def bundle_insert(R, ctx):
         R.ob(rid, "apply|entry-after-modules", order.index(id(mod_shift)) < order.index(id(entry_shift)), ctx.where(fn), "entry block shifted after the module loop")
 
 
-def count(R, ctx):
-    rid = "C04.count"
-    lib = ctx.lib
-    R.rule(rid, "in the token-based generator, `output` is written only by push_str (inside fn push_str, which adds count_new_lines to "
-                "current_line) or by String::push of a literal ' ' or '\\n' (the latter next to `current_line += 1`); `current_line` is only "
-                "ever incremented (+=), never assigned")
-    fam = generators.gen_family(ctx, "token_based")
-    n_writes = 0
-    n_line = 0
-    for p in fam.scope:
-        fn = lib.fns[p]
-        if not (p.startswith("generator::token_based") or p.startswith("<generator::token_based")):
-            continue
-        a = ctx.an.fa(p)
-        short = p.split("::")[-1]
-        for n in thir.walk(thir.body_of(fn)):
-            k = n.get("k")
-            if k == "Call" and "fn" in n and n["args"] and callee_of(n) not in lib.fns:
-                o = a.origins(n["args"][0])
-                if (GEN, "output") not in o:
-                    continue
-                fname = n.get("fname")
-                if fname in ("len", "chars", "as_str", "is_empty", "ends_with", "last", "as_bytes", "deref", "clone", "borrow", "as_ref"):
-                    continue
-                # only calls that take the buffer mutably matter
-                recv = n["args"][0]
-                is_mut = recv.get("k") == "Borrow" and recv.get("mut")
-                if not is_mut and fname not in ("push", "push_str", "extend", "insert", "insert_str", "write_str", "write_fmt", "truncate", "clear", "pop"):
-                    continue
-                n_writes += 1
-                if fname == "push_str":
-                    ok = short == "push_str" and any(c.get("fname") == "count_new_lines" for c in thir.calls(fn))
-                    R.ob(rid, "output|push_str@%s" % short, ok, ctx.where(fn, n.get("ln")),
-                         "String::push_str on the output buffer outside the counting primitive `push_str`" if not ok else "counting primitive")
-                elif fname == "push":
-                    lit = n["args"][1]
-                    v = lit.get("v") if lit.get("k") == "Lit" else None
-                    if v == "' '":
-                        R.ob(rid, "output|push-space@%s" % short, True, ctx.where(fn, n.get("ln")), "space")
-                    elif v == "'\\n'":
-                        par = a.parent.get(id(n))
-                        sib_ok = False
-                        if par is not None and par.get("k") == "Block":
-                            for st in par["stmts"]:
-                                if st.get("k") == "AssignOp" and "Add" in str(st.get("op")) and st["l"].get("k") == "Field" and st["l"].get("f") == "current_line" \
-                                        and st["r"].get("k") == "Lit" and st["r"].get("v") == "1":
-                                    sib_ok = True
-                        R.ob(rid, "output|push-newline-counted@%s" % short, sib_ok, ctx.where(fn, n.get("ln")),
-                             "'\\n' pushed %s `current_line += 1` in the same block" % ("with" if sib_ok else "WITHOUT"))
-                    else:
-                        R.ob(rid, "output|push-other@%s" % short, False, ctx.where(fn, n.get("ln")), "String::push of a non-literal / other character (%s): newlines would not be counted" % v)
-                else:
-                    R.ob(rid, "output|%s@%s" % (fname, short), False, ctx.where(fn, n.get("ln")),
-                         "the output buffer is written with `%s`, which bypasses the line counter" % fname)
-            if k in ("Assign", "AssignOp"):
-                l = n["l"]
-                if l.get("k") == "Field" and l.get("adt") == GEN and l.get("f") == "current_line":
-                    n_line += 1
-                    ok = k == "AssignOp" and "Add" in str(n.get("op"))
-                    R.ob(rid, "current_line|%s@%s" % ("increment" if ok else "assign", short), ok, ctx.where(fn, n.get("ln")),
-                         "current_line is %s" % ("incremented" if ok else "assigned/decremented: the counter may move backwards and later tokens get over-padded"))
-                if l.get("k") == "Field" and l.get("adt") == GEN and l.get("f") == "output":
-                    R.ob(rid, "output|assign@%s" % short, False, ctx.where(fn, n.get("ln")), "the output buffer is reassigned")
-    R.require(rid, "floor:output-writes", n_writes >= 3, "", "%d writes to the output buffer found (floor 3)" % n_writes)
-    R.require(rid, "floor:line-updates", n_line >= 1, "", "%d updates of current_line found (floor 1)" % n_line)
+def _is_line_comment(text):
+    """Lua: `--[`, any number of `=`, `[` opens a long comment; every other `--` comment ends at the end of the line"""
+    if not text.startswith("--["):
+        return True
+    rest = text[3:].lstrip("=")
+    return not rest.startswith("[")
 
 
-def pad(R, ctx):
-    from .. import interproc
-    rid = "C04.pad"
+def lines_eval(R, ctx):
+    """The token-based generator as a transfer function on (text written, line counter): the counter is exact, tokens land on their lines."""
+    import itertools
+    from .. import peval
+    from ..peval import make, Enum, NONE, some
+    from . import c13
     lib = ctx.lib
-    R.rule(rid, "write_token_options (local helpers expanded in place): a loop guarded by `line_number > current_line` (line from "
-                "Token::get_line_number) pushes newlines, and it precedes the write of the token content")
-    fn = lib.fn("generator::token_based::TokenBasedLuaGenerator::write_token_options")
-    if not R.require(rid, "anchor:write_token_options", fn is not None, "", "not found"):
+    rid_c, rid_p = "C04.count", "C04.pad"
+    R.rule(rid_c, "the generator that keeps lines (found by role: the LuaGenerator built from the original text, with an integer line counter), "
+                  "driven through LuaGenerator::write_expression and evaluated from its typed tree on expressions whose tokens carry recorded "
+                  "lines (in order, with gaps, out of order), trivia of every kind between them (spaces, newlines, line comments with and "
+                  "without their newline, long comments spanning lines), token contents spanning lines (long strings, interpolated "
+                  "segments) and token-less nodes: after every scenario the line counter equals its initial value plus the number of "
+                  "newlines written (no write bypasses it, it never runs ahead)")
+    R.rule(rid_p, "same scenarios: every token is written on its recorded line whenever the text before it has not passed that line yet, "
+                  "otherwise on the first line available (after a pending line comment: the next line); nothing recorded is lost")
+    N, T = "nodes::", "nodes::token::"
+    gens = [g for g in c13.generators(ctx) if g[2] == [""]]
+    if not R.require(rid_c, "anchor:line-keeping-generator", len(gens) == 1, "", "generators built from the original text: %s" % [g[0] for g in gens]):
         return
+    G, new, nargs = gens[0]
+    fields = [f for v in lib.adts[G]["variants"] for f in v["fields"]]
+    counter = [f["name"] for f in fields if f["tys"] == "usize"]
+    outbuf = [f["name"] for f in fields if f["tys"] == "alloc::string::String"]
+    if not R.require(rid_c, "anchor:counter-and-buffer", len(counter) == 1 and len(outbuf) == 1, ctx.adt_where(G), "usize fields %s, String fields %s" % (counter, outbuf)):
+        return
+    we = c13.trait_fn(lib, G, "write_expression")
 
-    def srcs(arg, fa):
-        # `read` only counts when it is Token::read (trivia have a read of their own)
-        return {y.get("fname") for y in fa.source_calls(arg) if y.get("fname") != "read" or "Token" in (callee_of(y) or y.get("fn") or "")}
+    def trivia(text, kind):
+        return make(lib, T + "Trivia", {"position": Enum(T + "Position", "Any", {"content": text}), "kind": Enum(T + "TriviaKind", kind, {})})
 
-    def derive(arg, fa, tainted):
-        # two facts are tracked at once: "is the token's recorded line" / "is the token's content"
-        s_ = srcs(arg, fa)
-        return bool({"get_line_number", "read"} & s_) or any(("#param", t) in fa.origins(arg) for t in tainted)
+    def tok(text, line, lead=(), trail=()):
+        pos = Enum(T + "Position", "LineNumber", {"content": text, "line_number": line}) if line is not None else Enum(T + "Position", "Any", {"content": text})
+        return make(lib, T + "Token", {"position": pos, "leading_trivia": [trivia(*t) for t in lead], "trailing_trivia": [trivia(*t) for t in trail]})
+    EXPR = c13.EXPR
 
-    def line_side(x, fa, tainted):
-        return "get_line_number" in srcs(x, fa) or any(("#param", t) in fa.origins(x) for t in tainted)
+    def build(spec):
+        """spec: list of operands ('id'|'str'|'istr'|'bare', text, line, lead, trail) joined by operator tokens ('+', line, lead, trail)"""
+        def operand(o):
+            kind, text, line, lead, trail = o
+            if kind == "bare":
+                return Enum(EXPR, "Identifier", {"0": make(lib, N + "identifier::Identifier", {"name": text, "token": NONE})})
+            if kind == "id":
+                return Enum(EXPR, "Identifier", {"0": make(lib, N + "identifier::Identifier", {"name": text, "token": some(tok(text, line, lead, trail))})})
+            if kind == "str":
+                return Enum(EXPR, "String", {"0": make(lib, N + "expressions::string::StringExpression", {"value": list(text.encode()), "token": some(tok(text, line, lead, trail))})})
+            IS = N + "expressions::interpolated_string::"
+            seg = Enum(IS + "InterpolationSegment", "String", {"0": make(lib, IS + "StringSegment", {"value": list(text.encode()), "token": some(tok(text, line))})})
+            return Enum(EXPR, "InterpolatedString", {"0": make(lib, IS + "InterpolatedStringExpression", {"segments": [seg], "tokens": some(make(lib, IS + "InterpolatedStringTokens", {
+                "opening_tick": tok("`", line, lead), "closing_tick": tok("`", None, (), trail)}))})})
+        node = operand(spec[0])
+        for k in range(1, len(spec), 2):
+            op = spec[k]
+            node = Enum(EXPR, "Binary", {"0": make(lib, N + "expressions::binary::BinaryExpression", {
+                "operator": Enum(N + "expressions::binary::BinaryOperator", "Plus", {}), "left": node, "right": operand(spec[k + 1]),
+                "token": some(tok(op[0], op[1], op[2], op[3])) if op[1] != "none" else NONE})})
+        return node
 
-    def classify(n, fa, tainted):
-        k = n.get("k")
-        if k == "Loop":
-            has_cmp = False
-            for x in thir.walk(n):
-                if x.get("k") == "Binary" and x.get("op") in ("Gt", "Lt", "Ge", "Le"):
-                    cur_l = any(y.get("f") == "current_line" for y in thir.walk(x["l"]) if y.get("k") == "Field")
-                    cur_r = any(y.get("f") == "current_line" for y in thir.walk(x["r"]) if y.get("k") == "Field")
-                    # direction: pad while the token line is greater than the current line
-                    if x["op"] == "Gt" and cur_r and line_side(x["l"], fa, tainted):
-                        has_cmp = True
-                    if x["op"] == "Lt" and cur_l and line_side(x["r"], fa, tainted):
-                        has_cmp = True
-            nl = False
-            for f2, c in interproc.scope_calls(lib, {"path": None, "thir": {"body": n}, "file": None}, depth=0) if False else []:
-                pass
-            for x in thir.walk(n):
-                if x.get("k") == "Call" and x.get("fname") == "push" and len(x["args"]) > 1 and x["args"][1].get("v") == "'\\n'":
-                    nl = True
-                if x.get("k") == "Call":
-                    q = lib.fn(callee_of(x) or "")
-                    if q is not None and thir.body_of(q) and any(y.get("k") == "Call" and y.get("fname") == "push" and len(y["args"]) > 1 and y["args"][1].get("v") == "'\\n'" for y in thir.walk(thir.body_of(q))):
-                        nl = True
-            if has_cmp and nl:
-                return "pad"
-        if k == "Call" and n.get("fname") == "push_str" and any("read" in srcs(a_, fa) or any(("#param", t) in fa.origins(a_) for t in tainted) for a_ in n["args"][1:]):
-            return "content"
-        return None
-    ev = [lab for lab, f, n in interproc.linear_events(ctx, fn, classify, derive)]
-    R.ob(rid, "write_token_options|pad-loop", "pad" in ev, ctx.where(fn), "padding loop `while line_number > current_line { push('\\n') }` %s" % ("found" if "pad" in ev else "NOT found"))
-    if "pad" in ev:
-        ok = "content" in ev and ev.index("pad") < ev.index("content")
-        R.ob(rid, "write_token_options|pad-before-content", ok, ctx.where(fn), "padding precedes the content write (events %s): %s" % (ev, ok))
+    def expected(spec):
+        """(pieces in writing order with the line each token must land on, total newlines) -- the documented behaviour, independently"""
+        line, pending, out = 1, False, []
+
+        def put_trivia(text, kind):
+            nonlocal line, pending
+            if kind == "Comment":
+                if not _is_line_comment(text) and pending:
+                    line += 1
+                    pending = False
+                line += text.count("\n")
+                if _is_line_comment(text):
+                    pending = True
+            else:
+                line += text.count("\n")
+                if pending and "\n" in text:
+                    pending = False
+
+        def put_token(text, rec, lead, trail):
+            nonlocal line, pending
+            for t in lead:
+                put_trivia(*t)
+            if text:
+                if pending:
+                    line += 1
+                    pending = False
+                if rec is not None and rec > line:
+                    line = rec
+                out.append((text, line))
+                line += text.count("\n")
+            for t in trail:
+                put_trivia(*t)
+        for k, o in enumerate(spec):
+            if k % 2 == 1:
+                if o[1] == "none":
+                    put_token("+", None, (), ())
+                else:
+                    put_token(o[0], o[1], o[2], o[3])
+            elif o[0] == "istr":
+                put_token("`", o[2], o[3], ())
+                put_token(o[1], o[2], (), ())
+                put_token("`", None, (), o[4])
+            else:
+                put_token(o[1], o[2] if o[0] != "bare" else None, o[3] if o[0] != "bare" else (), o[4] if o[0] != "bare" else ())
+        return out, line
+    TRAIL = [(), ((" ", "Whitespace"),), (("\n\n", "Whitespace"),), (("--c", "Comment"),), (("--c", "Comment"), ("\n", "Whitespace")), (("--[[x\ny]]", "Comment"),), (("--c", "Comment"), ("--[[d]]", "Comment"))]
+    LINES = [(1, 1, 1), (1, 2, 3), (2, 2, 5), (3, 1, 1), (1, 1, 4), (2, 4, 4)]
+    THIRD = [("id", "b"), ("bare", "b"), ("str", "[[s\nt]]"), ("istr", "u\nv")]
+    bad_c, bad_p, n = [], [], 0
+    for (l1, l2, l3), tr, oplead, third in itertools.product(LINES, TRAIL, [(), (("--[[p\nq]]", "Comment"),)], THIRD):
+        spec = [("id", "a", l1, (), tr), ("+", l2, oplead, ()), (third[0], third[1], l3, (), ()), ("+", "none", (), ()), ("id", "z", l3 + 1, (), ())]
+        want, want_line = expected(spec)
+        pe = peval.PEval(lib, ctx.an)
+        try:
+            gen = pe.call_fn(new, list(nargs))
+            start = gen.fields.get(counter[0])
+            pe.call_fn(we, [gen, build(spec)])
+        except peval.OutOfFuel:
+            bad_c.append((spec, "no termination"))
+            continue
+        n += 1
+        text, cnt = gen.fields.get(outbuf[0]), gen.fields.get(counter[0])
+        label = "lines %s, trivia after `a` %s, before `+` %s, third operand %s" % ((l1, l2, l3), [t[0] for t in tr], [t[0] for t in oplead], third[0])
+        if not isinstance(text, str) or not isinstance(cnt, int) or not isinstance(start, int):
+            bad_c.append((label, "not established %s" % pe.unknown_reasons[:2]))
+            continue
+        if cnt != start + text.count("\n"):
+            bad_c.append((label, "counter %d after writing %r (%d newlines, counter started at %d)" % (cnt, text, text.count("\n"), start)))
+        pos = 0
+        for content, line in want:
+            i = text.find(content, pos)
+            if i < 0:
+                bad_p.append((label, "token %r is missing from %r" % (content, text)))
+                break
+            got = 1 + text[:i].count("\n")
+            if got != line:
+                bad_p.append((label, "token %r written on line %d, expected line %d in %r" % (content, got, line, text)))
+                break
+            pos = i + len(content)
+    R.ob(rid_c, "counter-exact", not bad_c, ctx.where(we), "%d scenarios: counter == start + newlines written" % n if not bad_c else "%s: %s" % bad_c[0])
+    R.ob(rid_p, "tokens-on-their-lines", not bad_p, ctx.where(we), "%d scenarios: every token on its expected line" % n if not bad_p else "%s: %s" % bad_p[0])
+    R.require(rid_c, "floor:scenarios", n >= 300, "", "%d scenarios evaluated" % n)
 
 
 def line_totals(R, ctx):
@@ -308,6 +334,5 @@ def run(R, ctx):
     walkers.double_application(R, ctx, "C04.once", "shift_token_line")
     keep(R, ctx)
     bundle_insert(R, ctx)
-    count(R, ctx)
-    pad(R, ctx)
+    lines_eval(R, ctx)
     line_totals(R, ctx)
